@@ -305,7 +305,12 @@ fn check_modify(input: &(u16, u8, u16, u8), case: &mut Case) -> Result<(), Fail>
     lib("set_flags", || p.set_flags(flags_of(target & !have)))?;
     lib("remove_flags", || p.remove_flags(flags_of(have & !target)))?;
     let rc4 = if NAMED_RCODES.contains(&(rc & 15)) { rc & 15 } else { 0 };
+    // a new id through set_id: only the id changes
+    let new_id = word.rotate_left(3) ^ 0x5a5a;
+    lib("set_id", || p.set_id(new_id))?;
+    ensure!(lib("id", || p.id())? == new_id, "c08:set-id", "id() = {:#06x} after set_id({:#06x})", p.id(), new_id);
     let out = lib("build_bytes_vec", || p.build_bytes_vec())?.map_err(|e| Fail::new("c08:rebuild-failed", format!("{:?}", e)))?;
+    ensure!(out.len() == 12 && out[0..2] == new_id.to_be_bytes() && out[4..12] == [0u8; 8], "c08:set-id", "after set_id({:#06x}) the header is {}", new_id, hex(&out[..out.len().min(12)]));
     let w2 = u16::from_be_bytes([out[2], out[3]]);
     let want = target | ((op as u16) << 11) | rc4;
     ensure!(
